@@ -54,6 +54,11 @@ def _behave(app, seqs, outcomes):
 
     name = get_unique_id(seqs.info.source)
     o = outcomes.get(name, "ok")
+    delay = outcomes.get("__delay__", {}).get(name)
+    if delay:
+        import time
+
+        time.sleep(delay)  # only used by the free-running validation pass (real worker pool)
     if o == "ok":
         return seqs
     if o == "raise":
@@ -446,9 +451,58 @@ def check_passthrough(acc):
         shutil.rmtree(work, ignore_errors=True)
 
 
+def validate_real_pool(spec, acc):
+    """free-running pass: the real loky pool with skewed task durations; every observed final store must be the
+    one all explored schedules produced (the serial store)"""
+    base = tempfile.gettempdir()
+    ids = spec["ids"]
+    vec = dict(zip(ids, spec["vector"]))
+    refs = {i: single_reference(i, base) for i in ids}
+    serial = run_once(ids, [vec], spec["store"], None, base)
+    want = final_store_key(serial)
+    orders = set()
+    for delays in spec["delays"]:
+        v = dict(vec)
+        v["__delay__"] = dict(zip(ids, delays))
+        work = tempfile.mkdtemp(prefix="c14v-", dir=base)
+        try:
+            members = make_inputs(work, ids)
+            out_path = os.path.join(work, "out" if spec["store"] == "dir" else "out.sqlitedb")
+            app, out = make_app(spec["store"], out_path, [v])
+            case = {"validate_real_pool": True, "ids": ids, "vector": spec["vector"], "store": spec["store"], "delays": list(delays)}
+            acc.case(case)
+            try:
+                app.apply_to(members, parallel=True, par_kw={"max_workers": 3}, logger=False, show_progress=False)
+            except Exception as e:  # noqa: BLE001
+                acc.fail(f"apply_to with the real worker pool raised {type(e).__name__}", case, {"error": str(e)[:200]})
+                continue
+            recs, dups = store_content(spec["store"], out)
+            if spec["store"] == "sqlite":
+                out.unlock()
+                out.close()
+            got = final_store_key({"records": recs})
+            acc.traces += 1
+            acc.transitions += len(ids)
+            acc.outcome(got)
+            orders.add(tuple(delays))
+            if got != want:
+                acc.fail("real worker pool produced a final store that no explored schedule produced", case,
+                         {"got": [list(x[:2]) for x in got], "want": [list(x[:2]) for x in want]})
+            for sig, detail in judge(ids, [vec], spec["store"], (0,), {"raised": None, "records": recs, "dups": dups, "log": []}, refs):
+                acc.fail(sig.replace("parallel", "real pool"), case, detail)
+        finally:
+            shutil.rmtree(work, ignore_errors=True)
+    acc.count("real_pool_runs", len(orders))
+    acc.sample({"validate_real_pool": True, "ids": ids, "vector": spec["vector"], "delay_patterns": spec["delays"]}, "realpool")
+
+
 def shards(tier, seed):
     b = bounds(tier)
     out = [{"part": "passthrough"}]
+    if tier == "thorough":
+        for store in b["stores"]:
+            out.append({"part": "realpool", "ids": ["ba", "a", "c"], "vector": ["raise", "ok", "ok"], "store": store,
+                        "delays": [[0, 0, 0], [0.6, 0, 0.3], [0, 0.6, 0.3], [0.3, 0.6, 0], [0.6, 0.3, 0], [0, 0.3, 0.6]]})
     for store in b["stores"]:
         for ids in b["id_sets"]:
             n = len(OUTCOMES) ** len(ids)
@@ -466,6 +520,28 @@ def shards(tier, seed):
 def run_shard(spec, acc):
     if spec["part"] == "passthrough":
         check_passthrough(acc)
+    elif spec["part"] == "realpool":
+        # pool workers are daemonic and may not start a process pool themselves: run the pass in a child interpreter
+        import subprocess
+        import sys
+
+        r = subprocess.run([sys.executable, "-W", "ignore", "-m", "vf.props.c14_apps", json.dumps(spec)], capture_output=True, text=True, timeout=1800)
+        try:
+            res = json.loads(r.stdout.strip().splitlines()[-1])
+        except Exception:  # noqa: BLE001
+            acc.fail("harness: real-pool child did not report", {"validate_real_pool": True, **spec}, {"stdout": r.stdout[-300:], "stderr": r.stderr[-600:]})
+            return
+        for sig, case, detail in res["failures"]:
+            acc.fail(sig, case, detail)
+        for _ in range(res["cases"]):
+            acc.case(None)
+        acc.traces += res["traces"]
+        acc.transitions += res["transitions"]
+        for o in res["outcomes"]:
+            acc.outcome(o)
+        acc.count("real_pool_runs", res["runs"])
+        for smp in res["samples"]:
+            acc.sample(smp, "realpool")
     else:
         explore(dict(spec), acc)
 
@@ -474,6 +550,10 @@ def replay(case):
     from vf.kernel.runner import Acc
 
     base = tempfile.gettempdir()
+    if case.get("validate_real_pool"):
+        acc = Acc()
+        validate_real_pool({"ids": case["ids"], "vector": case["vector"], "store": case["store"], "delays": [case["delays"]]}, acc)
+        return [(s, r["cases"][0]["detail"]) for s, r in acc.failures.items()]
     if "passthrough" in case:
         acc = Acc()
         check_passthrough(acc)
@@ -501,3 +581,18 @@ LEVEL_NOTE = (
     "Trusted: pickle as the model of the process boundary; tasks do not share state. A free-running pass with the real loky executor validates that real outcomes are "
     "among the explored ones (thorough tier). Up to 3 (quick) / 4 (thorough) inputs."
 )
+
+
+if __name__ == "__main__":
+    import sys
+
+    from vf.kernel.runner import Acc
+
+    _spec = json.loads(sys.argv[1])
+    _acc = Acc()
+    validate_real_pool(_spec, _acc)
+    print(json.dumps({
+        "failures": [[sig, c["case"], c["detail"]] for sig, rec in _acc.failures.items() for c in rec["cases"][:1]],
+        "cases": _acc.evaluations, "traces": _acc.traces, "transitions": _acc.transitions,
+        "outcomes": sorted(_acc.outcomes), "runs": _acc.extra.get("real_pool_runs", 0), "samples": _acc.samples,
+    }))
